@@ -18,7 +18,7 @@ from hv import Case
 from props import c16
 
 SPEC = {
-    "lean_modules": ["Honeycomb.Props.C17", "Honeycomb.Props.C17Surf", "Honeycomb.Props.C16Grid", "Honeycomb.Props.C16EdgeInsert", "Honeycomb.Props.C16Chain"],
+    "lean_modules": ["Honeycomb.Props.C17", "Honeycomb.Props.C17Surf", "Honeycomb.Props.C16Grid", "Honeycomb.Props.C16EdgeInsert", "Honeycomb.Props.C16Chain", "Honeycomb.Props.C16ChainGrid"],
     "gen": ["anchors"],
     "required_theorems": [
         "C17_classify_frame", "C17_classify_WF", "C17_classify_ok_all_anchored",
@@ -30,7 +30,7 @@ SPEC = {
         "C17_vertex_merge_comm", "C17_vertex_merge_idem", "C17_vertex_merge_assoc", "C17_vertex_merge_lower_dim",
         "C17_vertex_merge_fails_iff", "C17_edge_merge_fails_iff", "C17_face_merge_fails_iff",
         "C16_shift_loop_terminates", "C16_shift_loop_exit", "C17_no_vertex_on_grid_line",
-        "C16_insertOneEdge_shape", "C16_insert_edges_inv", "C16_poi_are_vertices", "C17_poi_are_node_vertices",
+        "C16_insertOneEdge_shape", "C16_insert_edges_inv", "C16_poi_are_vertices", "C17_poi_are_node_vertices", "C17_poi_are_node_vertices_partial", "C17_poi_are_node_vertices_on_grid",
     ],
     "trusted_base": [
         "Lean 4.33 kernel; axioms propext, Classical.choice, Quot.sound only",
@@ -85,8 +85,11 @@ SPEC = {
         "THE CHAIN for capture (Props/C16Chain.lean, C17_poi_are_node_vertices): for the modelled capture pipeline (steps 1-5 with the anchor "
         "storages, both HashMap orders arbitrary), if the run succeeds every point of interest lying on a chain between two crossings is the "
         "coordinate of a vertex of the result and that vertex is anchored VertexAnchor::Node(j). Named hypotheses (satisfiable example, "
-        "evaluated by the `whole capture pipeline` tie): success of the run, KeysOK, EdgeDartsInUse, OnChain (false exactly for the loops inside "
-        "one cell of D17a); well-formedness and absence of tags after step 3 are proved. NOT proved: that every point of interest of a closed "
+        "evaluated by the `whole capture pipeline` tie): success of the run, HitDartsOK (grid map only), KeysAreHitEdges (HashMap only), general "
+        "position of the segments, OnChain (false exactly for the loops inside one cell of D17a); KeysOK, EdgeDartsInUse, well-formedness and "
+        "absence of tags after step 3 are proved (the `_partial` theorems keep the first two as hypotheses); on the grid of the model's builder "
+        "HitDartsOK is a theorem too (C17_poi_are_node_vertices_on_grid: no hypothesis about the map; geometry inside the grid with one cell of "
+        "margin). NOT proved: that every point of interest of a closed "
         "loop crossing a grid line satisfies OnChain; the chain through clip + classify_capture as one theorem",
         "C17_classify_asserts_never_fire: that the three debug_assert!s of classify_capture cannot fail on capture outputs "
         "(C17_classify_ok_all_anchored is the statement WITH the assertions, as in the debug build the harness runs). It is "
@@ -374,6 +377,32 @@ def small_map_cases(rng, nmax, budget):
     return cases
 
 
+def missing_storage_cases(rng, count):
+    """classify_capture on maps that carry only a subset of the three anchor storages (mask bits 32 / 64 / 128): every strict
+    subset must answer MissingAttribute and leave the map alone; (notes/TIECOV.md: no stream executed these arms)"""
+    import gens
+    cases = []
+    for k in range(count):
+        n = rng.randint(1, 4)
+        maps = list(gens.wf_maps2(n))
+        b0, b1, b2, u = rng.choice(maps)
+        mask = rng.choice([0, 32, 64, 128, 96, 160, 192, 224])
+        lines = [gens.load_line(2, n, mask, [b0, b1, b2], u), "snap", "classify", "snap", "wf"]
+        cases.append(Case(f"miss-{k}", lines, oracle="missing", meta={"sig": "classify-missing-storage", "mask": mask}))
+    return cases
+
+
+def oracle_missing(case, li):
+    if len(li) < 5:
+        return "driver died"
+    if case.meta["mask"] != 224:
+        if li[2] != "err MissingAttribute":
+            return f"classify on a map without all three anchor storages answered {li[2]!r}"
+        if li[1] != li[3]:
+            return "classify answered MissingAttribute but the map changed"
+    return None
+
+
 def reload_cases(captured, limit):
     """the meshes produced by the real capture_geometry, re-loaded (betas + removal flags + the node anchors) into
     both drivers: classify_capture of the model on the real dart numbering"""
@@ -459,6 +488,8 @@ def run(tier, seed):
     parts.append(("origin-shift loop of compute_overlapping_grid (vertices (k+1/2), (k+3/4), (k+7/8), (k+15/16) cells from the bounding-box "
                   "minimum: 1..5 shifts): grid of the captured map vs model `overlappingGrid` vs independent evaluation",
                   c16.shift_grid_tie(shg, "capture")))
+    parts.append(("shapes without extent along an axis / without vertices are refused (InvalidShape), model vs implementation",
+                  c16.flat_shape_cases(rng, 60 * mult, "capture")))
     parts.append(("origin-shift loop: capture + classify on the shifted polygons (in scope, full oracle)",
                   gg.impl_campaign(c16.shift_cases(shg, cmd="capture", oracle_name="c17", obs=("wf", "snap", "classify", "snap")), oracle)))
     zp = []
@@ -473,6 +504,7 @@ def run(tier, seed):
     parts.append(("classify: hand-made anchored grids, model vs implementation", hv.campaign(grid_cases(rng, 150 * mult), None)))
     parts.append(("classify: all well-formed 2-maps with <= 3 darts (+ sampled 4-dart maps), model vs implementation",
                   hv.campaign(small_map_cases(rng, 4, 600 * mult), None)))
+    parts.append(("classify on maps lacking some of the anchor storages", hv.campaign(missing_storage_cases(rng, 120 * mult), oracle_missing)))
     parts.append(("classify: real capture meshes re-loaded, model vs implementation", hv.campaign(reload_cases(cap, 40 * mult), None)))
     parts.append(("sew/unsew on anchored maps (generated merge table), model vs implementation", hv.campaign(sew_cases(rng, 150 * mult), None)))
     return hv.merge_results(parts)
